@@ -136,10 +136,14 @@ def case_reciprocity(case):
         _, cd, fd = S(q, z, prof, dom, levels, **kw)
         cd, fd = np.asarray(cd).reshape(2, ny, nx), np.asarray(fd).reshape(2, ny, nx)
         nexec += 1
+        qF = np.asfortranarray(q)
+        qS = np.repeat(np.repeat(q, 2, axis=0), 2, axis=1)[::2, ::2]
         for m, (j, i) in enumerate(itertools.product(range(ny), range(nx))):
             for l in range(2):
                 for w, name, d in ((1, "flux", fd), (0, "concentration", cd)):
-                    got = point_measurement(q, F[w, l, m].reshape(ny, nx))
+                    # the flux map in the caller's memory layout: C order, Fortran order (a transposed raster), a strided view
+                    qa = (q, qF, qS)[m % 3]
+                    got = point_measurement(qa, F[w, l, m].reshape(ny, nx))
                     want = d[l, j, i]
                     scale = max(np.abs(d[l]).max(), 1e-300)
                     e = abs(got - want) / scale
